@@ -33,6 +33,11 @@ CHECKS = {
          "For every weight vector over {0..7} of length <= 5 (quick) / 6 (thorough) and zero-block families up to length 64, in f32 and f64: normalisation, logp, and sample() at the boundary variates {0, one grid unit, every cumulative sum +-3 units, 1-ulp} with range, p>0, interval-membership and monotonicity oracles. For the sweep set (all short vectors, the rounding-critical vectors whose f32 cumulative sum stays at or below the largest variate, zero-block families) EVERY one of the 16,777,216 f32 variates is fed to the real sample(): index in range, never a zero-probability category, monotone, per-category count/2^24 = p_i within (len+1)*2^-24.",
          "The variate is injected through the verif tap 'categorical.r' (premise self-checked; failure = exit 2). f64: boundary probes only are exhaustive over their set; the 2^20 strided sweep is declared non-exhaustive. Generator uniformity is trusted.",
          "DESIGN.md §3 C16"),
+ "C17": ("E4", "model_checking",
+         "bounded-exhaustive enumeration of every shape of the statement's box with position-coded contents through all save entry points, files re-read with independent standard readers",
+         "All 2583 shapes 0..6 x 0..40 x 0..8 (thorough; quick: the 0..3 x 0..6 x 0..3 sub-box plus far corners) with every cell distinct, through save_csv<f64|f32|i32|usize>, save_csv_tensor, save_arrow<f64|f32|i32>, save_parquet<f64|f32|i32>, save_parquet_tensor<f32|f64>; 13 special values (+-0, subnormals, +-MAX, +-inf, NaN, 1/3) in every cell of four small shapes; error paths (missing directory, directory as path, empty path). Oracle: header/schema, one row per cell, documented labels for the documented axis order, values bit-exact after widening (CSV: parses back equal, NaN<->NaN); Err never a panic.",
+         "Readers are the csv/arrow-ipc/parquet crates of the locked versions. Read-only-file error path not exercised (root). A save returning Err is counted, not a violation.",
+         "DESIGN.md §3 C17"),
  "C18": ("E4", "model_checking",
          "bounded-exhaustive input enumeration of the real helpers against purity/prefix/shape oracles",
          "Every (n,d) of the statement's own bounded domain (thorough: the full 0..256 square; quick: an 8x8 sub-grid) x 5 seeds x f32/f64 is evaluated on the real helpers; shape, finiteness, purity, init_det==seed 42, the prefix property and seed sensitivity are decided on each. The enumeration is complete within the stated grid, which is the right level for a pure function of three small integers.",
